@@ -55,8 +55,20 @@ pub fn remove_condition_parentheses(expression: Expression) -> Expression {
     match expression.to_owned() {
         Expression::Parentheses {
             expression: inner_expression,
-            ..
+            contained,
         } => {
+            // If there are comments attached to the inside (or the front) of the parentheses, leave them to
+            // the expression formatter, which knows how to keep them
+            let (start_parens, end_parens) = contained.tokens();
+            if start_parens
+                .leading_trivia()
+                .chain(start_parens.trailing_trivia())
+                .chain(end_parens.leading_trivia())
+                .any(trivia_util::trivia_is_comment)
+            {
+                return expression;
+            }
+
             let (_, comments) = trivia_util::take_trailing_comments(&expression);
             inner_expression.update_trailing_trivia(FormatTriviaType::Append(comments))
         }
